@@ -61,6 +61,8 @@ def run(m, tier):
                          "regenerated text re-parses to items with the same label and name (shared with C02.R5)"))
     results.append(reader_rules.rule_inline_table(m, "C01.R31"))
     results.append(reader_interp.free_rule(m, "C01.R32", tier))
+    from rules import prog_rules
+    results.append(prog_rules.roundtrip_rule(m, "C01.R33", tier))
     expl = ("Decides structural necessary conditions of the round trip: every rule class that can build a node resolves a printer; the "
             "tuple arities each match can return (abstract interpretation of all return sites, following delegation to the generic "
             "engines with the call site's class arguments bound) are accepted by the resolved init and agree with the constant indices, "
